@@ -113,8 +113,9 @@ func (z *Decimal) scan(r io.ByteScanner, base int) (f *Decimal, b int, err error
 	}
 	// exp consumed - not needed anymore
 
-	// apply 10**exp10
-	if MinExp <= exp10 && exp10 <= MaxExp {
+	// apply 10**exp10 (a binary exponent is applied below; like math/big,
+	// reject one that does not fit the exponent type)
+	if MinExp <= exp10 && exp10 <= MaxExp && MinExp <= exp2 && exp2 <= MaxExp {
 		z.prec = prec
 		z.form = finite
 		z.exp = int32(exp10)
